@@ -15,6 +15,7 @@ const (
 	KS Kind = 'S' // Str
 	KF Kind = 'F' // Flt (uninterpreted)
 	KT Kind = 'T' // Tim (time.Time)
+	KM Kind = 'M' // mutex held flag (ghost lock state; not forgotten at unknown calls)
 )
 
 func (k Kind) Sort() string {
@@ -29,13 +30,15 @@ func (k Kind) Sort() string {
 		return "Flt"
 	case KT:
 		return "Tim"
+	case KM:
+		return "Bool"
 	}
 	panic("kind")
 }
 
 func (k Kind) Heap() string { return "H" + string(k) }
 
-var allKinds = []Kind{KI, KB, KS, KF, KT}
+var allKinds = []Kind{KI, KB, KS, KF, KT, KM}
 
 // Val is a symbolic Go value: its static type and one term per slot.
 type Val struct {
@@ -85,7 +88,7 @@ func (l *layouter) compute(t types.Type) *Layout {
 		return &Layout{[]Kind{KT}}
 	}
 	if isNamed(t, "sync", "Mutex") || isNamed(t, "sync", "RWMutex") {
-		return &Layout{[]Kind{KB}}
+		return &Layout{[]Kind{KM}}
 	}
 	switch u := t.Underlying().(type) {
 	case *types.Basic:
